@@ -42,6 +42,9 @@ Fams == {"v4", "v6", "v4+", "v6+"}
 \* ASPA under "trim": the certificate claims one span of AS numbers of which the issuer holds the first and, after a gap, the rest;
 \* the conforming customer lies in the later piece, the deviating one in the gap (inside the claim, outside what is validated).
 Pols == {"refuse", "trim"}
+\* how the two SHA-256 algorithm identifiers are written - parameters absent or NULL, in the digestAlgorithms set and in the
+\* SignerInfo (RFC 5754 section 2: implementations must accept both forms); a shape of the object like its size, not a deviation
+AlgForms == {"aa", "nn", "na", "an"}
 \* which coverage deviations exist for which kind of object
 CoverFor(k) == CASE k = "roa"  -> {"ok", "outside", "wider", "straddle", "nores"}
                  [] k = "aspa" -> {"ok", "outside", "inherit", "hasip4", "hasip6", "ipinherit"}
@@ -58,10 +61,11 @@ DecodeRejects(o) == o.f.attrs # "ok" \/ o.f.ctattr # "ok"
 
 VARIABLES obj, devs
 vars == <<obj, devs>>
-Init == \E k \in Kinds, s \in Sizes, fm \in Fams, pl \in Pols :
+Init == \E k \in Kinds, s \in Sizes, fm \in Fams, pl \in Pols, al \in AlgForms :
           /\ (k # "gen" => s = "small")            \* ROA / ASPA / manifest attribute sets have a fixed size
           /\ (k # "roa" => fm = "v4") /\ (k \notin {"roa", "aspa"} => pl = "refuse")
-          /\ obj = [kind |-> k, size |-> s, fam |-> fm, pol |-> pl, f |-> Conforming] /\ devs = 0
+          /\ (al # "aa" => s = "small" /\ fm = "v4" /\ pl = "refuse")
+          /\ obj = [kind |-> k, size |-> s, fam |-> fm, pol |-> pl, alg |-> al, f |-> Conforming] /\ devs = 0
 Deviate == /\ devs < MaxDev
            /\ \E fc \in Facets : \E v \in FacetValues[fc] :
                 /\ obj.f[fc] = "ok" /\ v # "ok"
